@@ -182,6 +182,14 @@ def gen_cmd_tables():
     nb = fn_body(_impl_block(t, r"\bimpl\s+CommandInfo\s*\{", p), "new", p)
     if not re.search(r"Self::get_key\(data_cmd_type,\s*packet\)\.map\(generate_slot\)", nb):
         raise ExtractError(f"{p}: CommandInfo::new: slot is no longer get_key(..).map(generate_slot)")
+    # the cached CommandInfo (type, data type, slot) follows the packet: the model computes `slotOfCmd` from the
+    # command as it is *after* UMFORWARD has been stripped / prepended (`handleUmforward`, `wrapForward`)
+    cb = _impl_block(t, r"\bimpl\s+Command\s*\{", p)
+    for fn in ("extract_inner_cmd", "wrap_cmd"):
+        if not re.search(r"self\.info\s*=\s*CommandInfo::new\(&self\.request\)", fn_body(cb, fn, p)):
+            raise ExtractError(f"{p}: Command::{fn}: the cached CommandInfo is no longer rebuilt from the new packet")
+    if not re.search(r"^\s*self\.info\.slot\s*$", fn_body(cb, "get_slot", p), flags=re.M):
+        raise ExtractError(f"{p}: Command::get_slot: no longer the cached CommandInfo slot")
 
     # handle_data_cmd dispatch
     p = "src/proxy/executor.rs"
